@@ -35,7 +35,8 @@ CLAIMED = {
          "(XJoin.v: right operands that are not trees, join(), vacant slots; C12x_*), with the unconditional fuel bound. Tie + "
          "oracle: trees plus isolated vertices / detached sub-trees, roots that are not the graph's root.",
          "Coq proof (DFS invariant of merge_rec, counting argument) + checked model/implementation correspondence", "section 8, C12"),
- "C13": ("Coq theorems (P_C13.v): for every hash-set iteration order, every predicate and every invariant source graph whose "
+ "C13": ("Coq theorems (P_C13.v): for every hash-set iteration order, every predicate and every source graph whose edge lists are valid "
+         "maps of at most N labels (weaker than the invariant: it covers states beyond the group limit, SliceWeak.v) and whose "
          "accepted-reachable part is closed, has no self loop and at most 14 (indeed 16) vertices, slice_some returns Ok (no "
          "panic, no fuel exhaustion: termination on cycles), the result's present vertices are exactly the reachable ones, "
          "its edges exactly the source edges between kept vertices in source order, no data, invariant kept; for graphs "
